@@ -3,6 +3,8 @@ package props
 import (
 	"bufio"
 	"bytes"
+	"context"
+	"net"
 	stdjson "encoding/json"
 	"errors"
 	"fmt"
@@ -27,6 +29,30 @@ import (
 
 var errSentinel = errors.New("verif: injected read error (sentinel)")
 
+type eofLookalike struct{}
+
+func (eofLookalike) Error() string { return "EOF" }
+
+// errClasses are the error values a failing reader returns: the statement says ANY
+// error other than end of input. (Errors that wrap io.EOF are out of scope.)
+var errClasses = []error{
+	errSentinel,
+	os.ErrDeadlineExceeded,
+	fmt.Errorf("read tcp 10.0.0.1:80: %w", os.ErrDeadlineExceeded),
+	&net.OpError{Op: "read", Net: "tcp", Err: os.ErrDeadlineExceeded},
+	context.DeadlineExceeded,
+	context.Canceled,
+	io.ErrClosedPipe,
+	io.ErrNoProgress,
+	io.ErrShortBuffer,
+	syscall.ECONNRESET,
+	syscall.EINTR,
+	syscall.EAGAIN,
+	&os.PathError{Op: "read", Path: "/x", Err: syscall.EIO},
+	eofLookalike{},
+	errors.New("unexpected EOF"),
+}
+
 type c05Sched struct {
 	Chunk    int   `json:"chunk"` // 0 = as much as asked, -1 = random 1..9, -2 = random 1..2000
 	ZeroN    int   `json:"zero_reads"`
@@ -38,6 +64,8 @@ type c05Sched struct {
 	// (a deterministic stand-in for another goroutine changing the limit while
 	// DetectReader is reading).
 	SetLimitTo int64 `json:"set_limit_to"`
+	// ErrClass selects the injected error value from errClasses (0 = the plain sentinel).
+	ErrClass int `json:"err_class"`
 }
 
 type c05Reader struct {
@@ -74,7 +102,7 @@ func (r *c05Reader) Read(p []byte) (int, error) {
 	}
 	if r.s.ErrAt >= 0 && r.pos >= r.s.ErrAt {
 		r.sentAt = r.handed
-		return 0, errSentinel
+		return 0, errClasses[r.s.ErrClass%len(errClasses)]
 	}
 	if r.pos >= len(r.b) {
 		return 0, io.EOF
@@ -102,7 +130,7 @@ func (r *c05Reader) Read(p []byte) (int, error) {
 	r.handed += n
 	if r.s.ErrAt >= 0 && r.pos == r.s.ErrAt && r.s.ErrWith {
 		r.sentAt = r.handed
-		return n, errSentinel
+		return n, errClasses[r.s.ErrClass%len(errClasses)]
 	}
 	if r.pos == len(r.b) && r.s.EOFWith {
 		return n, io.EOF
@@ -154,8 +182,8 @@ func c05JudgeReader(c *fw.Ctx, kind string, x []byte, limit uint32, prev uint32,
 	switch {
 	case expectErr:
 		c.Count("faults_observed_before_header_complete", 1)
-		if err != errSentinel || !got.IsRootOnly() {
-			c.Violate("error-not-surfaced", key, fmt.Sprintf("the reader returned the injected error after handing out %d bytes (limit %d, header %d bytes) but DetectReader returned (%s, %v); want (application/octet-stream, that error)", rd.sentAt, limit, hdr, got, err), p)
+		if err != errClasses[s.ErrClass%len(errClasses)] || !got.IsRootOnly() {
+			c.Violate("error-not-surfaced", key, fmt.Sprintf("the reader returned the injected error %T(%v) after handing out %d bytes (limit %d, header %d bytes) but DetectReader returned (%s, %v); want (application/octet-stream, that error)", errClasses[s.ErrClass%len(errClasses)], errClasses[s.ErrClass%len(errClasses)], rd.sentAt, limit, hdr, got, err), p)
 		}
 	default:
 		if err != nil {
@@ -418,7 +446,7 @@ func c05Run(c *fw.Ctx, b fw.Batch) {
 						step = 1 + hdr/300
 					}
 					for at := 0; at <= hdr; at += step {
-						s := c05Sched{Chunk: c05Chunks[r.Intn(len(c05Chunks))], ZeroN: r.Intn(2), EOFWith: r.Intn(2) == 0, ErrAt: at, ErrWith: r.Intn(2) == 0, RandSeed: r.Int63(), SetLimitTo: -1}
+						s := c05Sched{Chunk: c05Chunks[r.Intn(len(c05Chunks))], ZeroN: r.Intn(2), EOFWith: r.Intn(2) == 0, ErrAt: at, ErrWith: r.Intn(2) == 0, RandSeed: r.Int63(), SetLimitTo: -1, ErrClass: r.Intn(3) * r.Intn(len(errClasses))}
 						c05JudgeReader(c, "fault", x, lim, lim, s)
 					}
 					if hdr > 0 && step > 1 { // always the last offsets too
@@ -442,6 +470,31 @@ func c05Run(c *fw.Ctx, b fw.Batch) {
 			}
 			for _, lim := range c05Limits(c, len(x)) {
 				c05JudgeFile(c, "file", x, lim, dir)
+			}
+		}
+		// sparse files of 2 GiB … 4 GiB+ (sizes that do not fit 31 / 32 bits): the file is detected from its first bytes
+		if b.Idx == 0 {
+			for _, head := range [][]byte{[]byte("%PDF-1.7\n%\xe2\xe3\xcf\xd3\n1 0 obj"), []byte(`{"type":"Feature","k":[1,2,3]}` + "\n"), []byte("a,b,c\n1,2,3\n4,5,6\n")} {
+				for _, size := range []int64{1<<31 + 7, 1<<32 - 1, 1 << 32, 1<<32 + 3, 1<<32 + 5000, 1<<33 + 100} {
+					sp := filepath.Join(dir, "sparse.bin")
+					if os.WriteFile(sp, head, 0o600) != nil || os.Truncate(sp, size) != nil {
+						c.Count("sparse_files_skipped", 1)
+						continue
+					}
+					for _, lim := range []uint32{3072, 16, 1 << 16} {
+						buf := make([]byte, int(lim)+1)
+						copy(buf, head) // the first limit+1 bytes of the file (zeros after the head)
+						want := lib.ChainOf(lib.Detect(buf, lim)).String()
+						mimetype.SetLimit(lim)
+						m, derr := mimetype.DetectFile(sp)
+						c.Eval(1)
+						c.Count("sparse_huge_files_detected", 1)
+						if derr != nil || lib.ChainOf(m).String() != want {
+							c.Violate("entry-points-disagree", fw.InputKey(head, lim, fmt.Sprintf("DetectFile/sparse-%d", size)), fmt.Sprintf("DetectFile on a %d-byte sparse file starting with %q gives (%s, %v), Detect on its first %d bytes gives %s", size, head[:8], lib.ChainOf(m), derr, lim+1, want), c05Payload{Kind: fmt.Sprintf("sparse:%d", size), In: head, Limit: lim, Entry: "DetectFileSparse"})
+						}
+					}
+					os.Remove(sp)
+				}
 			}
 		}
 		// procfs: regular files that report size 0 but have content
@@ -475,7 +528,7 @@ func init() {
 	fw.Register(&fw.Prop{
 		ID:    "C05",
 		Level: "fault_enumeration",
-		Rule: "inputs = every seed + text tails + small text documents; limits {0, 1, len-1, len, len+1, 3072, random}; chunk schedules {1, 2, 3, 7, 512, as-asked, random 1-9, random 1-2000} with occasional (0, nil) reads and data returned together with io.EOF; a preceding DetectReader under a different limit (state left behind); a sentinel error injected at EVERY offset 0..min(len, limit) for headers <= 600 bytes (every k-th and the last 4 offsets beyond), returned alone or together with the last bytes before it; the standard library's concrete readers (bytes.Buffer, bytes.Reader, strings.Reader, bufio.Reader, io.LimitReader, io.MultiReader, iotest one-byte / half / data-with-error readers) with their consumption checked; DetectFile over temp files for every input and limit, an empty file, procfs files (regular files whose stat size is 0), a missing path, a directory (EISDIR) and /proc/self/mem (read error). The instrumented reader records bytes handed out, calls, and when the sentinel was really returned; expectations are derived from those observations. " +
+		Rule: "inputs = every seed + text tails + small text documents; limits {0, 1, len-1, len, len+1, 3072, random}; chunk schedules {1, 2, 3, 7, 512, as-asked, random 1-9, random 1-2000} with occasional (0, nil) reads and data returned together with io.EOF; a preceding DetectReader under a different limit (state left behind); an error (a plain sentinel, and error values of 15 classes: deadline exceeded bare / wrapped / in a net.OpError, context errors, closed pipe, ECONNRESET, EINTR, EAGAIN, a PathError, an error whose text is \"EOF\") injected at EVERY offset 0..min(len, limit) for headers <= 600 bytes (every k-th and the last 4 offsets beyond), returned alone or together with the last bytes before it; the standard library's concrete readers (bytes.Buffer, bytes.Reader, strings.Reader, bufio.Reader, io.LimitReader, io.MultiReader, iotest one-byte / half / data-with-error readers) with their consumption checked; DetectFile over temp files for every input and limit, an empty file, procfs files (regular files whose stat size is 0), sparse files of 2 GiB … 8 GiB whose size does not fit 31 / 32 bits, a missing path, a directory (EISDIR) and /proc/self/mem (read error). The instrumented reader records bytes handed out, calls, and when the sentinel was really returned; expectations are derived from those observations. " +
 			"non-trivial = a short-read schedule or an injected fault actually occurred before the header was complete; distinct = distinct (chunk kind, zero reads, EOF-with-data, limit class, error offset class, error-with-data, previous-limit differs, outcome).",
 		Assumptions: []string{
 			"only conforming readers: never n > len(p), never endless (0, nil)",
@@ -501,6 +554,10 @@ func init() {
 			var p c05Payload
 			if err := stdjson.Unmarshal(payload, &p); err != nil {
 				fmt.Println("bad payload:", err)
+				return
+			}
+			if p.Entry == "DetectFileSparse" {
+				c05Run(c, fw.Batch{Kind: "files", Idx: 0, Of: 1000})
 				return
 			}
 			if p.Entry == "DetectFileProc" {
